@@ -43,6 +43,10 @@ func Custom(v any) (*Node, error) {
 		return refcbor.NArr(kids...), nil
 	case cbor.ByteString:
 		return refcbor.NBstr([]byte(x)), nil
+	case cbor.SimpleValue:
+		return refcbor.NSimple(byte(x)), nil
+	case cose.CWTClaims:
+		return refcose.GoToNode(map[any]any(x), Custom)
 	case time.Time:
 		return refcbor.NInt(x.Unix()), nil
 	case big.Int:
